@@ -10,6 +10,7 @@
 import NemoVerif.Lemmas.Stream
 import NemoVerif.Lemmas.StreamAsIs
 import NemoVerif.Lemmas.StreamUsage
+import NemoVerif.Lemmas.StreamTopK
 import NemoVerif.Generated.C18
 namespace NemoVerif.C18
 open NemoVerif.Stream
@@ -304,5 +305,101 @@ theorem direct_chunk_invariant (site : Site) (text : Str) (cs : List Str) (again
       (execOps true (directOps site cs again) H0).st.completion = spec ⟨site.pfx, site.suffix, []⟩ text .llmEnd := by
   rw [directRun_st site cs again hne]
   exact chunk_invariant ⟨site.pfx, site.suffix, []⟩ (by intro s h; cases h) text cs .llmEnd hflat hne
+
+/-! ### Buffering mode: the event, the waiter's precondition, the value the waiter returns (phase 4) -/
+
+/-- The character scans of the usage model ARE the line-by-line code of streaming.py: `qualCount` is the number of
+    lines of `buffer.split("\n")` whose `strip()` is non-empty and does not start with `#` (the event condition of
+    `_process`), and `dropTopK` is `"\n".join(lines[i + 1:])` of the loop in `wait_top_k_nonempty_lines`. -/
+theorem scans_are_the_line_code (k : Nat) (buf : Str) :
+    qualCount none buf = qualLines buf ∧ (dropTopK k none buf).getD [] = restBuffer k buf :=
+  ⟨qualCount_eq_lines buf, dropTopK_eq_lines k buf⟩
+
+/-- EVENT ⇒ PRECONDITION (the former hypotheses `hsplit`/`hr0` of `usage_chunk_invariant`, now proved): when the
+    event `top_k_nonempty_lines_event` is set after `a` tokens — the buffer had more than k > 0 non-empty lines at
+    some moment — the k-th non-empty line of the buffer is terminated and a non-empty rest follows it. -/
+theorem event_implies_precondition (site : Site) (cs : List Str) (a : Nat) (hne : ∀ c ∈ cs, c ≠ [])
+    (hev : eventSetAt true site cs a = true) :
+    ∃ r0, dropTopK site.k none (cs.take a).flatten = some r0 ∧ r0 ≠ [] :=
+  event_precondition site cs a hne hev
+
+/-- The value `wait_top_k_nonempty_lines(k)` returns (it feeds the intent parser) is chunk- and schedule-invariant:
+    whenever the waiter can resume it returns the first k non-empty, non-comment lines of the WHOLE LLM text. -/
+theorem returned_chunk_invariant (site : Site) (text : Str) (cs : List Str) (a : Nat)
+    (hflat : cs.flatten = text) (hne : ∀ c ∈ cs, c ≠ []) (hev : eventSetAt true site cs a = true) :
+    waiterReturn true site cs a = returned site.k text := by
+  subst hflat
+  exact waiterReturn_eq site cs a hne hev
+
+/-- USAGE STATEMENT without the waiter hypothesis: the only assumption on the schedule is that the waiter resumed
+    because its event was set (`eventSetAt`, a computed flag of the model, compared with the real
+    `top_k_nonempty_lines_event.is_set()` on every run).  Adds the returned value. -/
+theorem usage_chunk_invariant_event (site : Site) (hS : NonemptyStops site.stop) (text : Str) (cs : List Str)
+    (a b endPos : Nat) (hflat : cs.flatten = text) (hne : ∀ c ∈ cs, c ≠ [])
+    (hend : endPos = 0 ∨ ((endPos = 1 ∨ endPos = 2) ∧ cs.drop (a + b) = []))
+    (hev : eventSetAt true site cs a = true) :
+    ∃ rest, dropTopK site.k none text = some rest ∧
+      deliveredItems (consumerItems (usageRun true true site cs a b endPos)) = spec site.cfg rest .llmEnd ∧
+      (usageRun true true site cs a b endPos).st.completion = spec site.cfg rest .llmEnd ∧
+      (usageRun true true site cs a b endPos).st.finished = true ∧
+      waiterReturn true site cs a = returned site.k text := by
+  obtain ⟨r0, hr0, hne0⟩ := event_precondition site cs a hne hev
+  obtain ⟨rest, h1, h2, h3, h4⟩ := usage_chunk_invariant site hS text cs a b endPos r0 hflat hne hend hr0 hne0
+  exact ⟨rest, h1, h2, h3, h4, returned_chunk_invariant site text cs a hflat hne hev⟩
+
+/-- non-vacuity: FakeLLM's tokens of tests/test_streaming.py::test_streaming_single_llm_call — the event is set after
+    6 tokens (not after 5), the waiter returns the two intent lines -/
+example :
+    let site : Site := ⟨"  \"".toList, "\"".toList, ["\"\n".toList], 2⟩
+    let cs := ["  express ", "greeting\nbot ", "express ", "greeting\n ", " ", "\"Hi, ", "how ", "are ", "you?\""].map String.toList
+    eventSetAt true site cs 6 = true ∧ eventSetAt true site cs 5 = false ∧
+      waiterReturn true site cs 6 = "  express greeting\nbot express greeting".toList := by
+  decide
+
+/-- The whitespace class of the model is Python's: the table the translator reads from the running CPython
+    (`chr(c).isspace()` for all of Unicode) is exactly this one — ASCII blanks, \x1c–\x1f, NEL, NBSP, U+1680,
+    U+2000–U+200A, U+2028/9, U+202F, U+205F, U+3000 (finite fact about generated data, `decide`). -/
+theorem ws_table_pinned : NemoVerif.Generated.C18.wsCodes =
+    [9, 10, 11, 12, 13, 28, 29, 30, 31, 32, 133, 160, 5760, 8192, 8193, 8194, 8195, 8196, 8197, 8198, 8199, 8200,
+     8201, 8202, 8232, 8233, 8239, 8287, 12288] := by decide
+
+/-- a line of no-break / ideographic / line-separator blanks is an EMPTY line for the waiter (as for `str.strip()`) -/
+example : qualLines "\u00a0\u3000\u2028\n x\n# c\ny".toList = 2 ∧
+    returned 2 "\u00a0\u3000\u2028\n\u00a0x\n# c\ny\nz".toList = "\u00a0x\ny".toList := by decide
+
+/-! ### Configuration changed while the stream runs: the orders the actions really perform (phase 4) -/
+
+theorem opNames_append (xs ys : List Op) : opNames (xs ++ ys) = opNames xs ++ opNames ys := by
+  induction xs with
+  | nil => rfl
+  | cons x xs ih => cases x <;> simp [opNames, ih]
+
+theorem opNames_tokens (cs : List Str) : opNames (cs.map Op.token) = [] := by
+  induction cs with
+  | nil => rfl
+  | cons c cs ih => simpa [opNames] using ih
+
+/-- The op sequence `usage_chunk_invariant` quantifies over has, for every chunking and schedule, exactly the
+    handler operations generate_intent_steps_message + generate_bot_message perform, in the order the translator
+    read from the source (enable_buffering, wait_top_k_nonempty_lines, set_pattern AFTER tokens were buffered,
+    set_pipe_to, `.stop =`, disable_buffering; tokens and on_llm_end interleave anywhere).  A reordered or
+    additional call in generation.py breaks this theorem (or the translator's shape check). -/
+theorem generated_protocol_ok (site : Site) (cs : List Str) (a b endPos : Nat) :
+    opNames (usageOps NemoVerif.Generated.C18.stopBeforeDisable site cs a b endPos) =
+      NemoVerif.Generated.C18.singleCallProtocol := by
+  have hsb : NemoVerif.Generated.C18.stopBeforeDisable = true := by decide
+  rw [hsb]
+  simp only [usageOps, opNames_append, opNames_tokens]
+  have hp : NemoVerif.Generated.C18.singleCallProtocol =
+      ["enable_buffering", "wait_top_k_nonempty_lines", "set_pattern", "set_pipe_to", "stop=", "disable_buffering"] := by decide
+  rw [hp]
+  by_cases h2 : endPos = 2 <;> by_cases h1 : endPos = 1 <;> by_cases h0 : endPos = 0 <;> simp [opNames, h0, h1, h2]
+
+/-- direct mode: `set_pattern` before the first token, the utterance pushed once more after the LLM call -/
+theorem generated_direct_protocol_ok (site : Site) (cs : List Str) (again : Str) :
+    opNames (directOps site cs again) = NemoVerif.Generated.C18.directProtocol.filter (· != "llm_call") := by
+  have hp : NemoVerif.Generated.C18.directProtocol = ["set_pattern", "llm_call", "push_chunk"] := by decide
+  rw [hp]
+  simp [directOps, opNames_append, opNames_tokens, opNames]
 
 end NemoVerif.C18
